@@ -18,7 +18,7 @@ import (
 func VH_CONC() {
 	logger.SetLogger(vlog{})
 	nw, nc := vf.Param("WRITERS", 1), vf.Param("COMMITS", 2)
-	cfg := Config{SkipListMaxLevel: 2, SkipListP: 0.5, MemtableByteThreshold: vf.Param("MEMTHR", 20),
+	cfg := Config{SkipListMaxLevel: 1, SkipListP: 0.5, MemtableByteThreshold: vf.Param("MEMTHR", 20),
 		ImmutableBuffer: vf.Choose("ib", 0, vf.Param("IBMAX", 1)), DataBlockByteThreshold: 1, L0TargetNum: 1, LevelRatio: 1}
 	dir := vf.Dir()
 	db, err := Open(dir, cfg)
@@ -148,7 +148,7 @@ func VH_CONC() {
 // schedule.  Params: MEMTHR (small: rotations during the commits), IBMAX.
 func VH_CONC2() {
 	logger.SetLogger(vlog{})
-	cfg := Config{SkipListMaxLevel: 2, SkipListP: 0.5, MemtableByteThreshold: vf.Param("MEMTHR", 1000),
+	cfg := Config{SkipListMaxLevel: 1, SkipListP: 0.5, MemtableByteThreshold: vf.Param("MEMTHR", 1000),
 		ImmutableBuffer: vf.Choose("ib", 0, vf.Param("IBMAX", 0)), DataBlockByteThreshold: 1, L0TargetNum: 1, LevelRatio: 1}
 	db, err := Open(vf.Dir(), cfg)
 	vf.Assert("CONC2.open", err == nil)
@@ -215,7 +215,7 @@ func VH_CONC2() {
 // values are visible afterwards (C12); nothing hangs (C15).
 func VH_CONC3() {
 	logger.SetLogger(vlog{})
-	cfg := Config{SkipListMaxLevel: 2, SkipListP: 0.5, MemtableByteThreshold: vf.Param("MEMTHR", 20),
+	cfg := Config{SkipListMaxLevel: 1, SkipListP: 0.5, MemtableByteThreshold: vf.Param("MEMTHR", 20),
 		ImmutableBuffer: vf.Choose("ib", 0, vf.Param("IBMAX", 1)), DataBlockByteThreshold: 1, L0TargetNum: 1, LevelRatio: 1}
 	dir := vf.Dir()
 	db, err := Open(dir, cfg)
